@@ -665,6 +665,7 @@ func minimise(c Case, kind string) Case {
 }
 
 func exec(x *fw.Ctx, c Case) {
+	ensureTables()
 	sp := specByName[c.Fn]
 	if sp == nil {
 		x.Fail("harness-unknown-function", "no such function in the check: %s", c.Fn)
@@ -849,6 +850,16 @@ func init() {
 	for i := range specs {
 		specByName[specs[i].name] = &specs[i]
 	}
+}
+
+// The case tables are built on first use, not at package initialisation (the
+// full binary is started once per session by checks that work through
+// sub-processes and must start fast).
+var tablesOnce sync.Once
+
+func ensureTables() { tablesOnce.Do(buildTables) }
+
+func buildTables() {
 	seqs3 = allSeqs(3)
 	seqs4 = allSeqs(4)
 	opt := func(b bool, n int) []int {
@@ -1053,6 +1064,7 @@ func sizes(tier string) [7]int {
 }
 
 func nCases(tier string) int {
+	ensureTables()
 	n := 0
 	for _, k := range sizes(tier) {
 		n += k
@@ -1070,6 +1082,7 @@ func opt8(v int8) *int {
 // gen is genBase with, in a third of the cases (chosen by the index), two of
 // the four characters swapped for multi-byte ones.
 func gen(r *rand.Rand, i int, tier string) Case {
+	ensureTables()
 	c := genBase(r, i, tier)
 	if (uint32(i)*2654435761>>7)%3 == 0 && unicodeVariant(&c) && c.Fn == "merge" {
 		c.S1, c.S2 = sortedBy(c.S1, c.Key, c.Pred), sortedBy(c.S2, c.Key, c.Pred)
